@@ -180,7 +180,19 @@ impl<R: std::io::BufRead> Read for ReaderRead<R> {
 		// more general `read_varint` method that reads byte by byte (that's slightly
 		// sub-optimal but also will trigger extremely rarely).
 		match I::decode_var(self.fill_buf().map_err(DeError::io)?) {
-			None => <Self as VarIntReader>::read_varint(self).map_err(DeError::io),
+			None => {
+				// Read the raw (widest) varint byte by byte, then decode its re-encoding as `I`:
+				// this accepts and rejects exactly what decoding from a slice does (notably
+				// non-minimal encodings longer than `I`'s minimal maximum), wherever the buffer
+				// refill boundaries fall.
+				let raw: u64 = <Self as VarIntReader>::read_varint(self).map_err(DeError::io)?;
+				let mut buf = [0u8; 10];
+				let len = raw.encode_var(&mut buf);
+				match I::decode_var(&buf[..len]) {
+					Some((val, _)) => Ok(val),
+					None => Err(DeError::new("Varint value is out of range for the expected integer type")),
+				}
+			}
 			Some((val, read)) => {
 				self.consume(read);
 				Ok(val)
